@@ -535,6 +535,39 @@ def dispatch(it, body, st, t, fn, args, depth):
                 return ret(st, ENUM("core::option::Option", "Some", [MAG(sym)]) if st.bools[key] else ENUM("core::option::Option", "None", []))
             if d in UNSIGNED:
                 return ret(st, INT(sym, d))
+    # Ordering::then_with(closure) / then(other)
+    if name in ("then_with", "then") and len(args) == 2 and args[0][0] == "ord":
+        if args[0][1] != 0:
+            return ret(st, args[0])
+        if name == "then":
+            return ret(st, args[1])
+        clo = args[1]
+        if clo[0] == "closure":
+            cb = it.facts.body(clo[1])
+            if cb is not None:
+                outs = []
+                for o in it.run_body(cb, st, [TUPLE(list(clo[2]))], depth + 1):
+                    if o[0] != "return":
+                        raise Unsupported("closure reaches %s" % o[0])
+                    outs.append(o)
+                return outs
+    # bool::then(closure) / then_some(value)
+    if name in ("then", "then_some") and len(args) == 2 and args[0][0] == "bool":
+        if not args[0][1]:
+            return ret(st, ENUM("core::option::Option", "None", []))
+        if name == "then_some":
+            return ret(st, ENUM("core::option::Option", "Some", [args[1]]))
+        clo = args[1]
+        if clo[0] == "closure":
+            cb = it.facts.body(clo[1])
+            if cb is not None:
+                outs = []
+                for o in it.run_body(cb, st, [TUPLE(list(clo[2]))], depth + 1):
+                    if o[0] == "return":
+                        outs.append(("return", o[1], ENUM("core::option::Option", "Some", [o[2]])))
+                    else:
+                        outs.append(o)
+                return outs
     # Option combinators with a closure argument: the closure body is interpreted
     if name in ("map", "map_or", "unwrap_or", "and_then", "unwrap_or_else") and args and args[0][0] == "enum" and args[0][1].endswith("Option"):
         opt = args[0]
